@@ -55,6 +55,40 @@ type gen struct {
 	nfun     int
 	ncap     int
 	force    *force
+	where    string // single-value consumer of the form being generated ("" = values are passed on)
+}
+
+// consumer names the note suffix of the single-value position (parent,pos).
+func consumer(parent, pos string) string {
+	switch pos {
+	case "arg":
+		switch parent {
+		case "and", "or":
+			return parent
+		}
+		return "arg"
+	case "fn", "list", "count":
+		return "arg"
+	case "test":
+		return "test"
+	case "key":
+		return "case-key"
+	case "first":
+		return "prog1"
+	case "value":
+		return "setq"
+	case "init", "step":
+		switch parent {
+		case "let", "let*":
+			return parent + "-init"
+		case "do", "do*":
+			return parent + "-" + pos
+		}
+		return "arg"
+	case "base", "step2":
+		return ""
+	}
+	return ""
 }
 
 var (
@@ -85,6 +119,18 @@ func (g *gen) okFamily(prefix string) bool {
 		}
 	}
 	return !broken
+}
+
+// want: probability gate for a construct labelled note - never when it is
+// avoided, often when this (dirty) case asks for it, else the base rate.
+func (g *gen) want(note string, base float64) bool {
+	if !g.ok(note) {
+		return false
+	}
+	if g.dirty[note] {
+		return g.chance(0.6)
+	}
+	return g.chance(base)
 }
 
 func (g *gen) chance(p float64) bool { return g.r.Float64() < p }
@@ -188,7 +234,7 @@ func (g *gen) leaf(t typ) *ref.V {
 		case 0:
 			return ref.Nil
 		case 1:
-			return ref.Quote(g.intList())
+			return g.quoted(g.intList())
 		case 2:
 			return form("quote", g.intList())
 		}
@@ -221,19 +267,28 @@ func (g *gen) leaf(t typ) *ref.V {
 			}
 		}
 		if g.chance(0.4) {
-			return form("lambda", list(sym("e")), form(g.pick("+", "-"), sym("e"), g.lit()))
+			return form("lambda", list(sym("w")), form(g.pick("+", "-"), sym("w"), g.lit()))
 		}
-		return form("function", sym(g.pick("1+", "1-", "-", "identity")))
+		return form("function", sym(g.pick("1+", "1-", "-")))
 	case tF2:
 		if v, ok := g.pickVar(false, tF2); ok && g.chance(0.5) {
 			return sym(v.name)
 		}
 		if g.chance(0.3) {
-			return form("lambda", list(sym("e"), sym("u")), form(g.pick("+", "-"), sym("u"), sym("e")))
+			return form("lambda", list(sym("w"), sym("v")), form(g.pick("+", "-"), sym("v"), sym("w")))
 		}
 		return form("function", sym(g.pick("+", "-", "max", "min")))
 	}
 	return ref.Nil
+}
+
+// quoted writes 'd when the shorthand is usable for this kind of datum,
+// (quote d) otherwise.
+func (g *gen) quoted(d *ref.V) *ref.V {
+	if g.ok("quote-shorthand:" + ref.TypeName(d)) {
+		return ref.Quote(d)
+	}
+	return form("quote", d)
 }
 
 func (g *gen) intList() *ref.V {
@@ -259,6 +314,11 @@ func (g *gen) expr(t typ, d int) *ref.V {
 	if g.chance(0.12) {
 		return g.leaf(t)
 	}
+	if g.where != "" && g.dirty["mv-into:"+g.where] && g.chance(0.5) {
+		if e := g.kindExpr("values", t, d); e != nil {
+			return e
+		}
+	}
 	for try := 0; try < 6; try++ {
 		k := allKinds[2+g.r.IntN(len(allKinds)-2)]
 		if e := g.kindExpr(k, t, d); e != nil {
@@ -281,8 +341,16 @@ func (g *gen) sub(parent, pos string, t typ, d int) *ref.V {
 			return e
 		}
 	}
+	saved := g.where
+	marked := g.chance(g.markP)
+	if marked {
+		g.where = "arg"
+	} else {
+		g.where = consumer(parent, pos)
+	}
 	e = g.expr(t, d+1)
-	if g.chance(g.markP) {
+	g.where = saved
+	if marked {
 		e = g.mark(e)
 	}
 	return e
@@ -413,14 +481,14 @@ func (g *gen) kindExpr(kind string, t typ, d int) *ref.V {
 		switch t {
 		case tL:
 			if g.chance(0.5) {
-				return ref.Quote(g.intList())
+				return g.quoted(g.intList())
 			}
 			return form("quote", g.intList())
 		case tA:
 			dat := g.pick2(sym("p"), list(sym("q"), num(1), list(sym("r"))), ref.Str("s"), list(sym("car"), sym("x")),
 				ref.Dotted(num(2), num(1)), sym(":k"))
 			if g.chance(0.5) {
-				return ref.Quote(dat)
+				return g.quoted(dat)
 			}
 			return form("quote", dat)
 		}
@@ -480,7 +548,7 @@ func (g *gen) kindExpr(kind string, t typ, d int) *ref.V {
 		var cls []*ref.V
 		for i := 0; i < n; i++ {
 			tst := g.test("cond", d, 0)
-			if t == tA && g.ok("cond-test-only") && g.chance(0.15) {
+			if t == tA && g.want("cond-test-only", 0.15) {
 				cls = append(cls, list(tst))
 				continue
 			}
@@ -595,6 +663,12 @@ func (g *gen) kindExpr(kind string, t typ, d int) *ref.V {
 			args[i] = g.sub("lambda-call", "arg", tI, d)
 		}
 		ps, body := g.lambdaParts("lambda", n, t, d)
+		if g.dirty["lambda-call-bare-free-variable"] && g.level > 0 {
+			if v, ok := g.pickVar(false, t); ok {
+				body[len(body)-1] = sym(v.name)
+			}
+		}
+		g.guardBare(ps, body)
 		lam := form("lambda", append2([]*ref.V{ps}, body...)...)
 		return list(append2([]*ref.V{lam}, args...)...)
 	case "funcall":
@@ -604,7 +678,7 @@ func (g *gen) kindExpr(kind string, t typ, d int) *ref.V {
 				return form("funcall", g.sub("funcall", "fn", tF1, d), g.sub("funcall", "arg", tI, d))
 			}
 			return form("funcall", g.sub("funcall", "fn", tF2, d), g.sub("funcall", "arg", tI, d), g.sub("funcall", "arg", tI, d))
-		case g.ok("funcall-0") && g.chance(0.15):
+		case g.want("funcall-0", 0.15):
 			_, body := g.lambdaParts("lambda", 0, t, d)
 			return form("funcall", form("lambda", append2([]*ref.V{ref.Nil}, body...)...))
 		}
@@ -643,16 +717,25 @@ func (g *gen) kindExpr(kind string, t typ, d int) *ref.V {
 		}
 		return nil
 	case "mapcar":
+		// the list arguments: non-empty by construction unless the
+		// empty-list finding is asked for (or a template forces the child)
+		ml := func() *ref.V {
+			forced := g.force != nil && !g.force.used && g.force.parent == "mapcar" && g.force.pos == "list"
+			if forced || g.ok("mapcar-empty-list") {
+				return g.sub("mapcar", "list", tL, d)
+			}
+			return form("cons", g.lit(), g.sub("mapcar", "list", tL, d))
+		}
 		switch t {
 		case tL:
 			if g.chance(0.35) {
-				return form("mapcar", g.sub("mapcar", "fn", tF2, d), g.sub("mapcar", "list", tL, d), g.sub("mapcar", "list", tL, d))
+				return form("mapcar", g.sub("mapcar", "fn", tF2, d), ml(), ml())
 			}
-			return form("mapcar", g.sub("mapcar", "fn", tF1, d), g.sub("mapcar", "list", tL, d))
+			return form("mapcar", g.sub("mapcar", "fn", tF1, d), ml())
 		case tA:
 			ps, body := g.lambdaParts("lambda", 1, tA, d)
 			lam := form("lambda", append2([]*ref.V{ps}, body...)...)
-			return form("mapcar", lam, g.sub("mapcar", "list", tL, d))
+			return form("mapcar", lam, ml())
 		}
 		return nil
 	case "closure":
@@ -683,11 +766,14 @@ func (g *gen) kindExpr(kind string, t typ, d int) *ref.V {
 		case 0, 1:
 			cnt = form("length", g.sub("dotimes", "count", tL, d))
 		case 2:
-			cnt = form("min", num(3), g.sub("dotimes", "count", tI, d))
+			cnt = form("min", num(3), form("max", num(0), g.sub("dotimes", "count", tI, d)))
+		case 3:
+			// a negative count: no iteration (the result form sees the count)
+			cnt = form("-", num(int64(g.r.IntN(3))), num(2))
 		default:
 			cnt = num(int64(g.r.IntN(4)))
 			if f := g.force; f != nil && !f.used && f.parent == "dotimes" && f.pos == "count" {
-				cnt = form("min", num(2), g.sub("dotimes", "count", tI, d))
+				cnt = form("min", num(2), form("max", num(0), g.sub("dotimes", "count", tI, d)))
 			}
 		}
 		name, capt := g.loopName()
@@ -738,12 +824,34 @@ func (g *gen) kindExpr(kind string, t typ, d int) *ref.V {
 		if t != tI && t != tA {
 			return nil
 		}
-		if !g.okFamily("mv-into:") {
+		if g.where == "" || !g.ok("mv-into:"+g.where) {
+			// values here would be passed on to a consumer the generator
+			// does not track: left to the deliberate mvExpr paths
+			return nil
+		}
+		if g.chance(0.4) {
 			return form("values", g.sub("values", "arg", t, d))
 		}
 		return form("values", g.sub("values", "arg", t, d), g.sub("values", "arg", tI, d))
 	}
 	return nil
+}
+
+// guardBare: in ((lambda (p) body) args) a body form that is a bare free
+// variable is a listed finding; the clean stream passes it through a marker.
+func (g *gen) guardBare(ps *ref.V, body []*ref.V) {
+	if g.ok("lambda-call-bare-free-variable") {
+		return
+	}
+	params := map[string]bool{}
+	for _, p := range ps.L {
+		params[p.S] = true
+	}
+	for i, b := range body {
+		if b.K == ref.KSym && b != ref.Nil && b != ref.T && !params[b.S] {
+			body[i] = g.mark(b)
+		}
+	}
 }
 
 func (g *gen) pick2(xs ...*ref.V) *ref.V { return xs[g.r.IntN(len(xs))] }
@@ -804,7 +912,7 @@ func (g *gen) builtinCall(t typ, d int) *ref.V {
 		}
 		return form("list", a(tI), a(tI), a(tI))
 	case tA:
-		switch g.r.IntN(10) {
+		switch g.r.IntN(9) {
 		case 0:
 			return form("list", a(tA), a(tA))
 		case 1:
@@ -818,11 +926,9 @@ func (g *gen) builtinCall(t typ, d int) *ref.V {
 		case 5:
 			return form(g.pick("null", "not"), a(tA))
 		case 6:
-			return form(g.pick("evenp", "oddp", "zerop"), a(tI))
+			return form(g.pick("evenp", "zerop"), a(tI))
 		case 7:
 			return form(g.pick("eql", "equal"), a(tI), a(tI))
-		case 8:
-			return form("identity", a(tA))
 		}
 		return form("list", a(tA), a(tI), a(tA))
 	}
@@ -1058,6 +1164,28 @@ func (g *gen) closureForm(t typ, d int) *ref.V {
 		return nil
 	}
 	arg := func() *ref.V { return g.sub("closure", "arg", tI, d) }
+	if g.dirty["dynleak"] && g.chance(0.6) {
+		// the closure is called where its free variable has another binding
+		c, f := poolName(), poolName()
+		lam := form("lambda", list(sym("d")), form("setq", sym(c), form("+", sym(c), sym("d"))))
+		switch g.r.IntN(3) {
+		case 0:
+			return g.wrapType(t, form("let", list(list(sym(c), g.sub("closure", "init", tI, d))),
+				form("let", list(list(sym(f), lam)),
+					form("list", form("let", list(list(sym(c), g.lit())), form("funcall", sym(f), arg()), sym(c)), form("funcall", sym(f), num(1)), sym(c)))))
+		case 1:
+			// passed to a function whose parameter has the same name
+			g.nfun++
+			name := fmt.Sprintf("uf%d", g.nfun)
+			g.defs = append(g.defs, form("defun", sym(name), list(sym("fn"), sym(c)), form("list", form("funcall", sym("fn"), num(2)), sym(c))))
+			g.funcs = append(g.funcs, gfunc{name: name, arity: 2, list: true})
+			return g.wrapType(t, form("let", list(list(sym(c), g.sub("closure", "init", tI, d))),
+				form("append", form(name, lam, g.lit()), form("list", sym(c)))))
+		}
+		return g.wrapType(t, form("let", list(list(sym(c), g.sub("closure", "init", tI, d))),
+			form("let", list(list(sym(f), lam)),
+				form("append", form("mapcar", form("lambda", list(sym(c)), form("funcall", sym(f), sym(c))), form("list", arg(), g.lit())), form("list", sym(c))))))
+	}
 	switch g.r.IntN(5) {
 	case 0: // counter, read back through the variable
 		c, f := cap1(), fname()
@@ -1089,7 +1217,7 @@ func (g *gen) closureForm(t typ, d int) *ref.V {
 			form("setq", sym(c), g.lit()), form("funcall", sym(get), num(0)))
 		return g.wrapType(t, form("let*", list(list(sym(c), g.sub("closure", "init", tI, d)),
 			list(sym(inc), form("lambda", list(sym("d")), form("setq", sym(c), form("+", sym(c), sym("d"))))),
-			list(sym(get), form("lambda", list(sym("u")), g.bare(), sym(c)))), res))
+			list(sym(get), form("lambda", list(sym("v")), g.bare(), sym(c)))), res))
 	case 3: // closures made in a loop, each over its own binding
 		fs, ce, e := cap1(), cap1(), cap1()
 		body := form("let", list(list(sym(ce), sym(e))),
@@ -1173,7 +1301,7 @@ func (g *gen) doForm(kind string, t typ, d int) *ref.V {
 			bt = tL
 		}
 		init := g.sub(kind, "init", bt, d)
-		if g.ok(kind+"-nostep") && g.chance(0.2) {
+		if g.want(kind+"-nostep", 0.2) {
 			specs = append(specs, list(sym(nm), init))
 		} else {
 			specs = append(specs, list(sym(nm), init, nil))
@@ -1205,6 +1333,11 @@ func (g *gen) doForm(kind string, t typ, d int) *ref.V {
 	if g.chance(0.2) {
 		test = g.mark(test)
 	}
+	if g.want(kind+"-test-atom", 0) {
+		// end test held in a variable (a listed finding: never returns)
+		specs = append(specs, list(sym("done"), ref.Nil, test))
+		test = sym("done")
+	}
 	end := []*ref.V{test}
 	if t != tA || g.chance(0.7) {
 		end = append(end, g.stmts(kind, d, 1)...)
@@ -1218,7 +1351,7 @@ func (g *gen) doForm(kind string, t typ, d int) *ref.V {
 func (g *gen) mvExpr(parent string, n, d int) *ref.V {
 	g.budget--
 	vals := func() *ref.V {
-		if n == 0 || (g.ok("values-0") && g.chance(0.05)) {
+		if n == 0 || g.want("values-0", 0.05) {
 			return form("values")
 		}
 		args := make([]*ref.V, n)
@@ -1233,9 +1366,14 @@ func (g *gen) mvExpr(parent string, n, d int) *ref.V {
 	mark := len(g.vars)
 	defer func() { g.vars = g.vars[:mark] }()
 	through := []string{"progn", "if", "when", "unless", "cond", "case", "and", "or", "let", "let*", "function-body", "lambda-call",
-		"dolist-result", "dotimes-result", "do-result", "multiple-value-bind", "prog1", "setq", "apply"}
+		"dolist-result", "dotimes-result", "do-result", "do*-result", "multiple-value-bind", "prog1", "setq", "apply"}
 	for try := 0; try < 4; try++ {
 		k := through[g.r.IntN(len(through))]
+		for _, th := range through {
+			if g.dirty["mv-through:"+th] && g.chance(0.5) {
+				k = th
+			}
+		}
 		if !g.ok("mv-through:"+k) || !g.ok("mv-into:"+k) {
 			continue
 		}
@@ -1299,10 +1437,10 @@ func (g *gen) mvExpr(parent string, n, d int) *ref.V {
 			nm, _ := g.loopName()
 			g.push(nm, tI, g.dirty["dynleak"], true)
 			return form("dotimes", list(sym(nm), num(int64(g.r.IntN(3))), inner()), g.bare())
-		case "do-result":
+		case "do-result", "do*-result":
 			nm, _ := g.loopName()
 			g.push(nm, tI, g.dirty["dynleak"], true)
-			return form("do", list(list(sym(nm), num(0), form("1+", sym(nm)))), list(form(">=", sym(nm), num(int64(g.r.IntN(3)))), inner()), g.bare())
+			return form(strings.TrimSuffix(k, "-result"), list(list(sym(nm), num(0), form("1+", sym(nm)))), list(form(">=", sym(nm), num(int64(g.r.IntN(3)))), inner()), g.bare())
 		case "multiple-value-bind":
 			nm, c := g.newName(nil)
 			src := g.mvExpr("mvb", 2, d+1)
@@ -1330,6 +1468,17 @@ func (g *gen) program(parentKind string, t typ) []*ref.V {
 		}
 	} else {
 		main = g.expr(t, 0)
+		var extra []*ref.V
+		for _, k := range dirtyKeys {
+			if g.dirty[k] {
+				if sn := g.snippet(k); sn != nil {
+					extra = append(extra, sn)
+				}
+			}
+		}
+		if 0 < len(extra) {
+			main = form("list", append(extra, main)...)
+		}
 	}
 	var forms []*ref.V
 	for _, n := range g.globals {
@@ -1345,4 +1494,58 @@ func (g *gen) program(parentKind string, t typ) []*ref.V {
 		main = form("list", res...)
 	}
 	return append(forms, main)
+}
+
+// snippet builds a small form around the listed construct a dirty case asks
+// for, so that the construct is really present next to the random program.
+func (g *gen) snippet(note string) *ref.V {
+	d := g.maxDepth - 2
+	if d < 0 {
+		d = 0
+	}
+	i := func() *ref.V { return g.sub("call", "arg", tI, d) }
+	vals := func() *ref.V { return form("values", i(), i()) }
+	switch note {
+	case "cond-test-only":
+		return form("cond", list(g.sub("cond", "test", tA, d)), list(ref.T, i()))
+	case "do-nostep", "do-test-atom":
+		return g.kindExpr("do", tA, d)
+	case "do*-nostep", "do*-test-atom":
+		return g.kindExpr("do*", tA, d)
+	case "funcall-0":
+		return form("funcall", form("lambda", ref.Nil, g.bare(), i()))
+	case "values-0":
+		return form("list", i(), form("values"))
+	case "mapcar-empty-list":
+		return form("mapcar", g.leaf(tF1), form("cdr", form("list", i())))
+	case "mv-through:progn":
+		return form("multiple-value-list", form("progn", g.bare(), vals()))
+	case "mv-into:setq":
+		return form("let", list(list(sym("z"), num(0))), form("multiple-value-list", form("setq", sym("z"), vals())))
+	case "mv-into:test":
+		return form(g.pick("if", "when", "unless"), form("values", g.sub("if", "test", tA, d), i()), g.mark(num(1)), g.mark(num(2)))
+	case "mv-into:and", "mv-into:or":
+		return form(note[len("mv-into:"):], form("values", g.sub("and", "arg", tA, d), i()), g.mark(num(1)))
+	case "mv-into:let-init", "mv-into:let*-init":
+		k := note[len("mv-into:") : len(note)-len("-init")]
+		return form(k, list(list(sym("z"), vals())), form("multiple-value-list", sym("z")))
+	case "mv-into:mapcar-result":
+		return form("mapcar", form("lambda", list(sym("w")), form("values", sym("w"), i())), form("list", i(), i()))
+	case "dynleak":
+		return g.closureForm(tA, d)
+	case "lambda-call-bare-free-variable":
+		return form("funcall", form("lambda", list(sym("a")), list(form("lambda", list(sym("b")), g.bare(), sym("a")), i())), i())
+	}
+	if strings.HasPrefix(note, "quote-shorthand") {
+		for try := 0; try < 200; try++ {
+			dat := datum(g.r, 0)
+			fs := []*ref.V{ref.Quote(dat)}
+			notes := map[string]bool{}
+			ref.StaticNotes(fs, notes)
+			if notes[note] {
+				return form("list", fs[0], g.bare())
+			}
+		}
+	}
+	return nil
 }
